@@ -55,6 +55,9 @@ def run_case(case):
     import jax
 
     prog, atys, ops = case["prog"], case["atys"], case["ops"]
+    _pj = __import__("json").dumps(prog)
+    case["_has_mask"] = '"mask' in _pj
+    case["_has_switch"] = '"switch"' in _pj or '"orelse"' in _pj
     rty, universe = infer(prog, atys)
     universe = list(dict.fromkeys(list(universe) + [tuple(p) for p in case.get("extra_paths", [])]))
     gf = gfi.build(prog)
@@ -218,12 +221,19 @@ def run_case(case):
                         elif not changed and p in old_obs["choices"] and v != old_obs["choices"][p]:
                             fails.append({"prop": "C05", "why": "unconstrained address changed", "path": str(p)})
                     new_paths = set(obs["choices"]) - set(old_obs["choices"]) - set(vc)
-                    if not new_paths and w != obs["score"] - old_obs["score"]:
+                    fresh = changed and case.get("_has_switch")     # Switch.edit re-simulates: new random choices
+                    if not new_paths and not fresh and w != obs["score"] - old_obs["score"]:
                         fails.append({"prop": "C05", "why": "weight != new score - old score (no new random choice)",
                                       "w": w, "want": obs["score"] - old_obs["score"]})
                     if bobs is not None:
                         want = {p: old_obs["choices"][p] for p in vc if p in old_obs["choices"] and p in obs["choices"]}
-                        if bobs != want:
+                        if case.get("_has_mask"):
+                            # a choice hidden under a False flag has no visible previous value: the backward
+                            # constraint may carry its hidden value; compare the visible part
+                            bobs_cmp = {p: v for p, v in bobs.items() if p in old_obs["choices"]}
+                        else:
+                            bobs_cmp = bobs
+                        if bobs_cmp != want:
                             fails.append({"prop": "C05", "why": "backward constraint != previous values at overwritten addresses",
                                           "bwd": {str(k): v for k, v in bobs.items()}, "want": {str(k): v for k, v in want.items()}})
                 if kind == "regen":
@@ -253,6 +263,29 @@ def run_case(case):
                         fails.append({"prop": "C10", "why": "project != sum of log-densities of the selected choices",
                                       "w": w, "want": want})
                 results.append({"ok": True, "w": w})
+            elif kind == "idx":
+                from genjax import Diff, IndexRequest, Regenerate, Update
+                import jax.numpy as jnp
+
+                _, seed, k, sub, payload = op
+                old_obs = cur_obs
+                inner = Update(gfi.build_cmap(payload, case.get("cmap_style", 0))) if sub == "upd" else Regenerate(gfi.build_sel(payload))
+                req = IndexRequest(jnp.asarray(k), inner)
+                tr, w, rd, bwd = req.edit(jax.random.key(seed), cur, Diff.no_change(cur.get_args()))
+                obs = _obs_trace(tr, atys, rty, universe)
+                w = gfi._to_int(w)
+                fails += check_trace(obs, tr, kind)     # C01 / C02 after an index edit (C12: "after any ... index edit")
+                for p_, v_ in obs["choices"].items():   # C11: only element k is affected
+                    if p_ and p_[0] != k and old_obs["choices"].get(p_) != v_:
+                        fails.append({"prop": "C11", "why": "an index edit changed another element", "path": str(p_)})
+                if w != obs["score"] - old_obs["score"] and sub == "upd":
+                    fails.append({"prop": "C05", "why": "index edit weight != new score - old score", "w": w,
+                                  "want": obs["score"] - old_obs["score"]})
+                res = {"ok": True, "tr": obs, "w": w}
+                if isinstance(bwd, IndexRequest) and isinstance(bwd.request, Update):
+                    res["bwd"] = {(k,) + p_: v_ for p_, v_ in gfi.observe_choices(bwd.request.constraint, [q[1:] for q in universe if q and q[0] == k])[0].items()}
+                cur, cur_obs, last_bwd, last_edit = tr, obs, None, None
+                results.append(res)
             elif kind == "propose":
                 _, seed, args = op
                 aj = gfi.to_jax(args, ["tup", atys])
